@@ -22,10 +22,26 @@ type StreamFace struct {
 	sendMut sync.Mutex
 }
 
+// tlHeaderReader reads the T and L of a block byte by byte and keeps the bytes as they arrive
+type tlHeaderReader struct {
+	r   *bufio.Reader
+	hdr []byte
+}
+
+func (h *tlHeaderReader) ReadByte() (byte, error) {
+	b, err := h.r.ReadByte()
+	if err == nil {
+		h.hdr = append(h.hdr, b)
+	}
+	return b, err
+}
+
 func (f *StreamFace) Run() {
 	r := bufio.NewReader(f.conn)
+	h := tlHeaderReader{r: r}
 	for f.running.Load() {
-		t, err := enc.ReadTLNum(r)
+		h.hdr = h.hdr[:0]
+		_, err := enc.ReadTLNum(&h)
 		if err != nil {
 			if !f.running.Load() {
 				break
@@ -35,7 +51,7 @@ func (f *StreamFace) Run() {
 				break
 			}
 		}
-		l, err := enc.ReadTLNum(r)
+		l, err := enc.ReadTLNum(&h)
 		if err != nil {
 			if !f.running.Load() {
 				break
@@ -45,12 +61,12 @@ func (f *StreamFace) Run() {
 				break
 			}
 		}
-		l0 := t.EncodingLength()
-		l1 := l.EncodingLength()
-		buf := make([]byte, l0+l1+int(l))
-		t.EncodeInto(buf)
-		l.EncodeInto(buf[l0:])
-		_, err = io.ReadFull(r, buf[l0+l1:])
+		// The packet is handed on with the T and L bytes it arrived with
+		// (a number that is not in its shortest form is not re-encoded)
+		l0 := len(h.hdr)
+		buf := make([]byte, l0+int(l))
+		copy(buf, h.hdr)
+		_, err = io.ReadFull(r, buf[l0:])
 		if err != nil {
 			if !f.running.Load() {
 				break
